@@ -50,6 +50,15 @@ def gen(rng):
         # (an older generation of the same file whose info lost its date)
         pv = TG.pct(rng.choice(made)[2]) if (made and k in ('nodate', 'baddate', 'offsetdate') and rng.random() < 0.5) else None
         TG.add_malformed(rng, extra, tdir, k, str(i), path_value=pv)
+    if made and rng.random() < 0.08:
+        # next to the well-formed entry X a stray file X.TRASHINFO / X.TrashInfo / X.trashinfo~ / X.trashinfo.bak (what a
+        # case-folding medium, a backup tool or an editor leaves behind), well-formed inside and dated long ago: it is not an
+        # info file - it describes nothing, least of all files/X
+        tdir_, nm_, loc_, _d = rng.choice(made)
+        if len(nm_.encode('utf-8', 'surrogateescape')) < 200:
+            extra.append(['f', tdir_ + '/info/' + nm_ + rng.choice(['.TRASHINFO', '.TRASHINFO', '.TrashInfo', '.trashinfo~', '.trashinfo.bak', '.Trashinfo']),
+                          G.fmt_info(TG.pct('/home/u/w/other-' + nm_[:40]) if tdir_.startswith(home) else 'docs/other', '1999-05-05T05:05:05'), 0o600])
+            kinds.append('same-stem-other-case-suffix')
     if made and rng.random() < 0.1:
         # an info WITHOUT payload called X.trashinfo.trashinfo (what is left of a stray 'X.trashinfo' somebody trashed and half
         # removed), X being a well-formed entry of the same directory: it stands for files/X.trashinfo, not for files/X
